@@ -48,7 +48,15 @@ def client(args):
     out = {"role": "client", "handshake": "fail", "version": None, "reply_hex": "", "read_end": None, "error": None}
     try:
         src = (args.src, 0) if args.src else None
-        raw = socket.create_connection((args.host, args.port), timeout=5, source_address=src)
+        if args.rcvbuf:
+            # a fixed, small receive window: must be set before connecting
+            raw = socket.socket(socket.AF_INET, socket.SOCK_STREAM)
+            raw.setsockopt(socket.SOL_SOCKET, socket.SO_RCVBUF, args.rcvbuf)
+            raw.settimeout(5)
+            if src: raw.bind(src)
+            raw.connect((args.host, args.port))
+        else:
+            raw = socket.create_connection((args.host, args.port), timeout=5, source_address=src)
     except OSError as e:
         out["error"] = "connect:" + str(e)
         print(json.dumps(out)); return
@@ -57,6 +65,9 @@ def client(args):
         s = ctx.wrap_socket(raw, server_hostname=args.servername or None)
         out["handshake"] = "ok"          # from this side's point of view
         out["version"] = s.version()
+        if args.flood:
+            flood(s, args, out)
+            print(json.dumps(out)); return
         if args.send:
             try:
                 send_chunked(s, bytes.fromhex(args.send), args)
@@ -74,6 +85,41 @@ def client(args):
     except (ssl.SSLError, OSError) as e:
         out["error"] = type(e).__name__ + ":" + str(e)[:160]
     print(json.dumps(out))
+
+def flood(s, args, out):
+    """a peer that pipelines `flood` requests (read 125 holding registers, transaction id k), reads
+    nothing until `read_delay` seconds after the last one was sent, then reads until `wait` seconds
+    of silence. Reports how many complete replies arrived and whether they came in order."""
+    n = args.flood
+    blob = b"".join(k.to_bytes(2, "big") + bytes([0, 0, 0, 6, 1, 3, 0, 0, 0, 125]) for k in range(n))
+    s.settimeout(60)
+    s.sendall(blob)
+    time.sleep(args.read_delay)
+    s.settimeout(args.wait)
+    frames = 0; order_ok = True; buf = b""; end = None; total = 0; recvs = 0
+    try:
+        while frames < n:
+            chunk = s.recv(16384)
+            if not chunk:
+                end = "eof"; break
+            total += len(chunk); buf += chunk
+            recvs += 1
+            if args.read_throttle_ms > 0 and recvs % 16 == 0:
+                time.sleep(args.read_throttle_ms / 1000.0)   # a slow reader: the sender stays blocked
+            while len(buf) >= 7:
+                ln = 6 + int.from_bytes(buf[4:6], "big")
+                if len(buf) < ln: break
+                if int.from_bytes(buf[0:2], "big") != (frames & 0xFFFF) or ln != 259:
+                    order_ok = False
+                frames += 1; buf = buf[ln:]
+        if end is None: end = "all"
+    except socket.timeout:
+        end = "timeout"
+    except (ssl.SSLError, OSError) as e:
+        end = "error:" + type(e).__name__ + ":" + str(e)[:120]
+    out["flood"] = {"sent": n, "replies": frames, "in_order": order_ok, "bytes": total, "read_end": end, "partial_tail": len(buf)}
+    try: s.close()
+    except Exception: pass
 
 def send_chunked(s, data, args):
     """every sendall() is at least one TLS record; the gap makes the peer see separate reads"""
@@ -177,6 +223,8 @@ def main():
     p.add_argument("--chunks", default=""); p.add_argument("--gap-ms", type=float, default=2.0)
     p.add_argument("--read-all", action="store_true"); p.add_argument("--expect-bytes", type=int, default=0)
     p.add_argument("--serve", type=int, default=1)
+    p.add_argument("--flood", type=int, default=0); p.add_argument("--rcvbuf", type=int, default=0)
+    p.add_argument("--read-delay", type=float, default=1.0); p.add_argument("--read-throttle-ms", type=float, default=0.0)
     a = p.parse_args()
     {"client": client, "server": server, "raw": raw}[a.mode](a)
 
